@@ -44,7 +44,7 @@ static const double complex cplx_z0[] = {
 };
 static const double freqs[3][3] = {
     { 1.5e9, 0, 0 },
-    { 123456.789012345, 2.50000000001e9, 0 },
+    { 0.0, 2.50000000001e9, 0 },	/* a sweep that starts at DC */
     { 1.0e6, 1.000001e6, 39.9999999999e9 },
 };
 
